@@ -223,17 +223,35 @@ def read_frames(path):
     return frames
 
 
-def run_solver(tdgl, a, tmp, capture=None, dev=None, opts=None):
+class StepBudgetExceeded(RuntimeError):
+    """the run took more steps than the documented step rule allows for it (observation: the run does not get there)"""
+
+
+def run_solver(tdgl, a, tmp, capture=None, dev=None, opts=None, step_budget=None):
     """-> (accepted?, frames, dev, error text).  With capture = {} the REAL TDGLSolver object of the run is stored in
-    capture["solver"] (run-time wrapper on TDGLSolver.solve, DESIGN.md 4.1; arguments and results untouched)."""
+    capture["solver"] (run-time wrapper on TDGLSolver.solve, DESIGN.md 4.1; arguments and results untouched).
+    step_budget: the largest number of update() calls the documented step rule allows this run (computed by the caller from
+    the literals it asked for); one call more raises StepBudgetExceeded inside the run -- a run that would take a million
+    steps at dt_init becomes an observation instead of a check that never returns."""
     from tdgl.solver.solver import TDGLSolver
 
     work = tempfile.mkdtemp(prefix="runobs", dir=tmp)
     cwd = os.getcwd()
     orig_solve = TDGLSolver.solve
-    if capture is not None:
+    if capture is not None or step_budget is not None:
         def w_solve(self):
-            capture["solver"] = self
+            if capture is not None:
+                capture["solver"] = self
+            if step_budget is not None:
+                inner, count = self.update, [0]
+
+                def counted(*args, **kwargs):
+                    count[0] += 1
+                    if count[0] > step_budget:
+                        raise StepBudgetExceeded(f"step budget exceeded: {count[0]} update() calls, the documented step rule allows at most "
+                                                 f"{step_budget} for this run (the step did not grow / the run does not reach its solve time)")
+                    return inner(*args, **kwargs)
+                self.update = counted
             return orig_solve(self)
         TDGLSolver.solve = w_solve
     try:
@@ -321,9 +339,14 @@ def stationary_run(tdgl, a, tmp, dev=None, opts=None):
         dt = min(dt0, 2.0 ** math.floor(math.log2(limit / ratio)))
         a = dict(a, dt=dt, dt_max=dt * ratio, solve_time=a["solve_time"] * dt / dt0)
     cap = {}
+    # documented step rule on an undriven run: `window` steps at dt_init, then (the change of |psi|^2 is zero) dt_max for the rest;
+    # without adaptivity solve_time / dt steps.  Four times that plus 60 is the budget (thermalisation: none in these runs).
+    _dt0, _dtm, _T = a.get("dt", 2.0 ** -6), a.get("dt_max", 0.125), float(a.get("solve_time", 1.0))
+    _n = (int(a.get("window", 3)) + 2 + math.ceil(_T / _dtm)) if a.get("adaptive") else math.ceil(_T / _dt0)
+    budget = 4 * _n + 60
     try:
-        ok, frames, dev, err = run_solver(tdgl, a, tmp, capture=cap, dev=dev, opts=opts)
-    except RuntimeError as e:       # the solver gave up (retries / screening iterations exhausted) on the uniform state
+        ok, frames, dev, err = run_solver(tdgl, a, tmp, capture=cap, dev=dev, opts=opts, step_budget=budget)
+    except RuntimeError as e:       # the solver gave up (retries / screening iterations exhausted) on the uniform state, or the budget
         return {"cfg": {"adaptive": bool(a.get("adaptive", False)), "window": int(a.get("window", 3)), "driven": False,
                         "screening": bool(a.get("screening", False))},
                 "seed": 0.0, "seeded": False, "seed_over_half_ulp": 0.0, "ev": [{"kind": "raised"}], "args": a, "raised": repr(e),
